@@ -3,10 +3,12 @@ pub mod c03;
 pub mod c04;
 pub mod c05;
 pub mod c06;
+pub mod c07;
 pub mod c08;
 pub mod c09;
 pub mod c10;
 pub mod c11;
+pub mod c16;
 
 use crate::Ctx;
 
@@ -17,10 +19,12 @@ pub fn run(ctx: &Ctx) -> i32 {
         "C04" => c04::run(ctx),
         "C05" => c05::run(ctx),
         "C06" => c06::run(ctx),
+        "C07" => c07::run(ctx),
         "C08" => c08::run(ctx),
         "C09" => c09::run(ctx),
         "C10" => c10::run(ctx),
         "C11" => c11::run(ctx),
+        "C16" => c16::run(ctx),
         other => {
             eprintln!("MACHINERY-ERROR unknown property {}", other);
             2
@@ -35,10 +39,12 @@ pub fn replay(id: &str, payload: &serde_json::Value) -> bool {
         "C04" => c04::replay(payload),
         "C05" => c05::replay(payload),
         "C06" => c06::replay(payload),
+        "C07" => c07::replay(payload),
         "C08" => c08::replay(payload),
         "C09" => c09::replay(payload),
         "C10" => c10::replay(payload),
         "C11" => c11::replay(payload),
+        "C16" => c16::replay(payload),
         other => {
             eprintln!("MACHINERY-ERROR no replay for {}", other);
             std::process::exit(2)
